@@ -276,7 +276,7 @@ def compare(ctx: Any, st: Any, m: Model, tag: str, probe: bool = True) -> None:
 
 def h_betting(ctx: Any, code: str, n: int, depth: int, mode: str = 'T', script: str = '',
               part: Any = None, sym_blinds: bool = False, maxstack: int = MAXCHIP,
-              fixed: Any = None, doc: Any = None) -> None:
+              fixed: Any = None, doc: Any = None, min_bet: int = 2, ante_only: bool = False) -> None:
     C.native_hands()
     C.set_deck_order('identity')
     fixed = fixed or {}
@@ -287,11 +287,13 @@ def h_betting(ctx: Any, code: str, n: int, depth: int, mode: str = 'T', script: 
     if C.is_stud(code):
         cfg.update(antes=1, bring_in=1, small_bet=2, big_bet=4)
     else:
-        cfg['blinds'] = (1, 2)
+        cfg['blinds'] = (0, 0) if ante_only else (1, 2)
+        if ante_only:
+            cfg['antes'] = 1
         if C.uses_small_big(code):
-            cfg.update(small_bet=2, big_bet=4)
+            cfg.update(small_bet=min_bet, big_bet=2 * min_bet)
         else:
-            cfg['min_bet'] = 2
+            cfg['min_bet'] = min_bet
     st = C.call(ctx, C.make_state, code, cfg)
     m = None
     round_id = None
@@ -410,6 +412,10 @@ def jobs(tier: str, seed: int) -> list[dict]:
         cover=['done', 'raise-refused'])
     add('F7S/n2/cap', 3, code='F7S', n=2, depth=6, script='brrrr', fixed={'0': 1000, '1': 1000},
         cover=['done', 'raise-refused'])
+    # minimum bet larger than the blinds / than the whole pot (pot-limit maximum is floored by the minimum)
+    for code in ('PO', 'NT'):
+        add(f'{code}/n2/d2/T/min-bet-10', 4, code=code, n=2, depth=2, min_bet=10)
+        add(f'{code}/n3/d1/T/ante-only/min-bet-10', 4, code=code, n=3, depth=1, min_bet=10, ante_only=True)
     # the cap counts every bet/raise, also an all-in raise for less than a full raise (4 players, symbolic short stack)
     add('FT/n4/cap/short-all-in', 6, code='FT', n=4, depth=6, script='mmmmm', fixed={'0': 1000, '1': 1000, '2': 1000},
         maxstack=12, cover=['done', 'raise-refused'])
